@@ -104,8 +104,10 @@ def build_events(ctx, strings, registry):
     for s in replayed:
         events.append(ev("guess", bytes=s["bytes"]))
     allal = [a for al in names.values() for a in al]
-    for s in rng.sample(strings, min(len(strings), 300)):
+    for i, s in enumerate(rng.sample(strings, min(len(strings), 300))):
         events.append(ev("guess", bytes=s["bytes"], hint=rng.choice(allal)))
+        if i % 5 == 0:                  # a byte-order mark in front does not outrank the caller's hint
+            events.append(ev("guess", bytes=rng.choice([[0xFE, 0xFF], [0xFF, 0xFE], [0xEF, 0xBB, 0xBF]]) + s["bytes"][:6], hint=rng.choice(allal)))
     # ---- tables of the single-byte sets and stable byte strings of the multi-byte sets (x/text data)
     tabs = data_events(ctx, [ev("table", cs=n) for n in sb])
     table = {t["cs"]: t["dec"] for t in tabs}
@@ -152,6 +154,9 @@ def build_events(ctx, strings, registry):
             events.append(ev("qr", hint=rng.choice(names[cs]), cs=cs, text=[c, rng.choice(chars)[0]]))
         if cs == "Shift_JIS":       # every range-edge character alone (Kanji mode) and between two others
             edges = [c for c in chars if c[1] in ([0x81, 0x40], [0x81, 0x41], [0x9F, 0xFC], [0x9F, 0xFB], [0xE0, 0x40], [0xE0, 0x41], [0xEA, 0xA4], [0xEA, 0xA3], [0x88, 0x9F], [0x98, 0x72], [0x98, 0x9F])]
+            # long Kanji-mode texts: the character count field is 8 / 10 / 12 bits wide for versions 1-9 / 10-26 / 27-40
+            for k in ([200, 1100] if ctx.quick else [60, 200, 600, 1023, 1024, 1100, 1500, 1817]):
+                events.append(ev("qr", hint=names[cs][0], cs=cs, text=[rng.choice(chars)[0] for _ in range(k)]))
             for c in edges:
                 events.append(ev("qr", hint=names[cs][0], cs=cs, text=[c[0]]))
                 events.append(ev("qr", hint=names[cs][0], cs=cs, text=[rng.choice(chars)[0], c[0], rng.choice(chars)[0]]))
@@ -203,6 +208,11 @@ def build_events(ctx, strings, registry):
                 else:
                     payload = list("".join(chr(c) for c in random_cps(rng, 3)).encode("utf-16-be"))
                 cases.append(dict(eci=-1, bytes=payload, hint=a))
+        if kind[n] == "sb":                                                         # payloads that LOOK like another encoding's signature
+            for bom in ([0xFE, 0xFF], [0xFF, 0xFE], [0xEF, 0xBB, 0xBF]):            # (UTF-16 / UTF-8 byte-order marks): the hint still decides
+                if all(table[n][b] >= 0 for b in bom):
+                    cases.append(dict(eci=-1, bytes=bom + [0x41, 0x42], hint=al[0]))
+                    cases.append(dict(eci=-1, bytes=bom + [0x41], hint=rng.choice(al)))
     for s in rng.sample(strings, min(len(strings), 400 if ctx.quick else 4000)):    # no designator, no hint: the guess decides
         if s["bytes"]:
             cases.append(dict(eci=-1, bytes=s["bytes"], hint=""))
